@@ -1442,7 +1442,7 @@ def p_scale(w, rnd):
     v = rc(rnd)
     if abs(complex(*v)) < 1e-3:
         v = [1.5, 0.0]
-    return {"op": "scale", "a": rnd.choice(hs), "val": v, "inplace": rnd.random() < 0.25, "out": w.new_handle()}
+    return {"op": "scale", "a": rnd.choice(hs), "val": v, "inplace": rnd.random() < 0.4, "out": w.new_handle()}
 
 
 @prop("unary")
